@@ -118,6 +118,17 @@ fn main() {
         };
         std::process::exit(if ok { 0 } else { 1 });
     }
+    if args[2] == "vecfail" {
+        // tsharness <64|32> vecfail <collect|remove> - - - : the first allocation the operation makes (a `Vec`
+        // temporary of std) fails.  If the process survives, the failure was contained; the open finding D11 is
+        // that it is not: `Vec` goes through `handle_alloc_error`, which aborts.
+        let out = match args[1].as_str() {
+            "64" => scenarios::vecfail::<tinyset::SetU64>(&args[3]),
+            _ => scenarios::vecfail::<tinyset::SetU32>(&args[3]),
+        };
+        println!("{}", out);
+        std::process::exit(0);
+    }
     let rc = match args[1].as_str() {
         "64" => run::<tinyset::SetU64>(&args),
         "32" => run::<tinyset::SetU32>(&args),
